@@ -76,6 +76,42 @@ func classifyNameFact(w *World, f condFact) string {
 	return ""
 }
 
+// neutralNameFact: conditions that only say which arm we are in or that an
+// earlier special case did not apply; they never decide to keep a name.
+func neutralNameFact(f condFact) bool {
+	nf := normFact(f)
+	switch x := nf.V.(type) {
+	case *ssa.Extract:
+		if _, ok := x.Tuple.(*ssa.TypeAssert); ok {
+			return true
+		}
+	case *ssa.BinOp:
+		if _, _, isNil := nilTest(x); isNil {
+			return true // err != nil, pkg != nil ...
+		}
+		if _, ok := constString(x.Y); ok && x.Op == token.EQL {
+			// a package path selecting a group of special cases (true), or a case that did not match (false)
+			if call, ok := x.X.(*ssa.Call); ok && calleeName(call) == "(*go/types.Package).Path" {
+				return true
+			}
+			return !nf.Outcome
+		}
+	case *ssa.Call:
+		n := calleeName(x)
+		if n == "(*go/types.Var).IsField" {
+			return true
+		}
+		return !nf.Outcome // HasPrefix/HasSuffix/... that did not match
+	case *ssa.Lookup:
+		return !nf.Outcome
+	case *ssa.UnOp:
+		if _, ok := toObfuscateOf(nf.V); ok && nf.Outcome {
+			return true
+		}
+	}
+	return false
+}
+
 // objectNameExits lists the "keep the name" exits of obfuscatedObjectName.
 func objectNameExits(w *World) ([]nameExit, error) {
 	fn := w.Fn("(*transformer).obfuscatedObjectName")
@@ -107,7 +143,15 @@ func objectNameExits(w *World) ([]nameExit, error) {
 				class = c
 				break
 			}
+			if neutralNameFact(f) {
+				continue
+			}
+			// the innermost deciding condition is not one of the documented exceptions
 			descs = append(descs, fmt.Sprintf("%s=%v", condDesc(f.V), f.Outcome))
+			break
+		}
+		if class == "" && len(descs) > 0 {
+			class = "OTHER: " + strings.Join(descs, " && ")
 		}
 		if class == "" {
 			// the default arm of the type switch on the object's kind: every assert failed
